@@ -20,22 +20,29 @@ mod tol;
 use engine::{replay_cmd, run_property, Outcome, Prop, Tier};
 use std::path::Path;
 
-const IDS: [&str; 2] = ["C01", "C02"];
-
-fn run(id: &str, tier: Tier, seed: u64) -> Option<Outcome> {
-    Some(match id {
-        "C01" => run_property::<props::c01::C01>(tier, seed),
-        "C02" => run_property::<props::c02::C02>(tier, seed),
-        _ => return None,
-    })
+macro_rules! registry {
+    ($($id:literal => $ty:ty),* $(,)?) => {
+        const IDS: &[&str] = &[$($id),*];
+        fn run(id: &str, tier: Tier, seed: u64) -> Option<Outcome> {
+            Some(match id {
+                $($id => run_property::<$ty>(tier, seed),)*
+                _ => return None,
+            })
+        }
+        fn replay(id: &str, path: &Path) -> Option<Outcome> {
+            Some(match id {
+                $($id => replay_cmd::<$ty>(path),)*
+                _ => return None,
+            })
+        }
+    };
 }
 
-fn replay(id: &str, path: &Path) -> Option<Outcome> {
-    Some(match id {
-        "C01" => replay_cmd::<props::c01::C01>(path),
-        "C02" => replay_cmd::<props::c02::C02>(path),
-        _ => return None,
-    })
+registry! {
+    "C01" => props::c01::C01,
+    "C02" => props::c02::C02,
+    "C03" => props::c03::C03,
+    "C04" => props::c04::C04,
 }
 
 fn main() {
